@@ -740,3 +740,39 @@ def check_conjunction(r, prefix, body, expected, where=None):
     elif ok_all:
         r.violation("%s/not-sufficient" % prefix, "with all of %s true the result is not forced true (value %s): something else can veto" % (list(expected), v), where)
     return ok_all
+
+
+# ------------------------------------------------------------------ finding evaluated expressions
+def call_exprs(body, *suffixes):
+    """[(bb, expr)] for calls whose callee matches one of the suffixes"""
+    return [(bi, body.rec_call(t, bi)) for bi, t in calls_to(body, *suffixes)]
+
+
+def all_call_exprs(body):
+    return [(bi, body.rec_call(t, bi)) for bi, t in body.calls()]
+
+
+def force(body, table, params=None):
+    """Forcing with a table expr -> value (0/1/V(i))"""
+    return Forcing(body, lambda x: table.get(x), params)
+
+
+def err_blocks(body, variant_substr):
+    """blocks building Err(<variant>) / returning through from_residual"""
+    res = result_blocks(body)
+    return [b for b, e in res["Err"] if variant_substr in sig(e)]
+
+
+def loop_entry(body, h, blocks):
+    """first block of a `for` loop's body: the Some-successor of the switch on next()'s discriminant"""
+    for s1 in body.succs(h):
+        t = body.term(s1)
+        if t and t["k"] == "switch":
+            for val, tgt in t["targets"]:
+                if val == "1" and tgt in blocks:
+                    return tgt
+            for s2 in body.succs(s1):
+                if s2 in blocks and s2 != h and body.term(s2)["k"] != "unreachable":
+                    last = s2
+            return last
+    return h
